@@ -73,19 +73,19 @@ type DocItem struct {
 	Grad     []float64 `json:"grad,omitempty"`     // gradient geometry (see file comment) -- EXTRA field
 	Matrix   []float64 `json:"matrix,omitempty"`   // nil = identity; [a b c d e f] = canvas.Matrix{{a,c,e},{b,d,f}}
 	// image
-	ImgW     int     `json:"imgw,omitempty"`     // 1..4 pixels
-	ImgH     int     `json:"imgh,omitempty"`     //
-	ImgAlpha bool    `json:"imgalpha,omitempty"` // some pixels with alpha < 255
-	ImgSeed  uint64  `json:"imgseed,omitempty"`  // pixel contents derive from this
-	Lossy    bool    `json:"lossy,omitempty"`    // JPEG (DCT) instead of Flate
-	ImgReuse int     `json:"imgreuse,omitempty"` // >0: same image.Image object as image item #ImgReuse-1
+	ImgW     int    `json:"imgw,omitempty"`     // 1..4 pixels
+	ImgH     int    `json:"imgh,omitempty"`     //
+	ImgAlpha bool   `json:"imgalpha,omitempty"` // some pixels with alpha < 255
+	ImgSeed  uint64 `json:"imgseed,omitempty"`  // pixel contents derive from this
+	Lossy    bool   `json:"lossy,omitempty"`    // JPEG (DCT) instead of Flate
+	ImgReuse int    `json:"imgreuse,omitempty"` // >0: same image.Image object as image item #ImgReuse-1
 	// gradient sharing: path items with the same GradGroup > 0 are painted with ONE gradient object (same
 	// pointer) wherever they are in the document (other pages included); GradStroke: the gradient paints the
 	// stroke (width Width) instead of the fill
-	GradGroup  int  `json:"gradgroup,omitempty"`
-	GradStroke bool `json:"gradstroke,omitempty"`
-	X        float64 `json:"x,omitempty"`        // position in mm (image, text)
-	Y        float64 `json:"y,omitempty"`        //
+	GradGroup  int     `json:"gradgroup,omitempty"`
+	GradStroke bool    `json:"gradstroke,omitempty"`
+	X          float64 `json:"x,omitempty"` // position in mm (image, text)
+	Y          float64 `json:"y,omitempty"` //
 	// text
 	Font     string  `json:"font,omitempty"`  // "ttf" | "cff"
 	Text     string  `json:"text,omitempty"`  //
